@@ -1,0 +1,23 @@
+//go:build verif
+
+package loader
+
+import "github.com/compose-spec/compose-go/v2/types"
+
+// Verification hooks (C06, round 6): the three environment resolvers of loader/environment.go, one by one.
+// loadYamlModel runs all three on a project loaded on its own and the first two on an included model.
+
+// VerifC06ResolveServicesEnvironment exposes resolveServicesEnvironment.
+func VerifC06ResolveServicesEnvironment(dict map[string]any, environment types.Mapping) {
+	resolveServicesEnvironment(dict, environment)
+}
+
+// VerifC06ResolveSecretsEnvironment exposes resolveSecretsEnvironment.
+func VerifC06ResolveSecretsEnvironment(dict map[string]any, environment types.Mapping) {
+	resolveSecretsEnvironment(dict, environment)
+}
+
+// VerifC06ResolveConfigsEnvironment exposes resolveConfigsEnvironment.
+func VerifC06ResolveConfigsEnvironment(dict map[string]any, environment types.Mapping) {
+	resolveConfigsEnvironment(dict, environment)
+}
